@@ -610,6 +610,10 @@ Section Main.
     simpl in Hrk. apply orb_false_elim in Hrk. destruct Hrk as [Hrk Hrb]. apply orb_false_elim in Hrk. destruct Hrk as [HvS Hrbo].
     apply mem_false_not_In in HvS. simpl in Hfv, Hbd.
     assert (HvU : In v U) by (apply Hbd; left; reflexivity).
+    (* the capture check of the repaired translation does not fire under the guard *)
+    apply (guard_capture_KT D C defs U _ _ _ _ _ _ _ _ _ _ H) in HK as H';
+      [|intros z [<-|[]]; split; [exact HvS | intros [_ Hn]; contradiction]].
+    clear H. rename H' into H.
     set (vb := mkcb (new_id v) CPrd (compile_ty vty)).
     set (S' := remove_all [v] (fv_fterm body ++ S)).
     (* the body, in any scope that agrees with G on its free names and on those of the continuation *)
